@@ -6,7 +6,7 @@
    nothing is assumed about H. *)
 From DV Require Import Base.Prelude.
 From DV Require Model.NameM.
-From DV Require Import Model.TsigM Proofs.TsigSpec Proofs.TsigLemmas Proofs.TsigInj Proofs.TsigReader Proofs.TsigStream.
+From DV Require Import Model.TsigM Proofs.TsigSpec Proofs.TsigLemmas Proofs.TsigInj Proofs.TsigReader Proofs.TsigStream Proofs.TsigSender.
 Open Scope Z_scope.
 
 (* ---- the octets fed to the MAC are the RFC 8945 input ---- *)
@@ -253,6 +253,16 @@ Theorem read_stream_is_rfc :
     stream_spec H k rmac now run ws ms.
 Proof. exact read_stream_is_rfc_lemma. Qed.
 Print Assumptions read_stream_is_rfc.
+
+(* the sending side (Message.to_wire(multi=True, tsig_ctx=previous); ctx.update(wire) for envelopes
+   sent without TSIG) produces exactly the MACs of the same specification *)
+Theorem sign_stream_is_rfc :
+  forall H k rmac ms outs ctx run,
+    ctx_matches k ctx run ->
+    sign_stream H ms k rmac ctx = map Ok outs ->
+    sender_spec H k rmac run ms outs.
+Proof. exact sign_stream_is_rfc_lemma. Qed.
+Print Assumptions sign_stream_is_rfc.
 
 (* ---- non-vacuity: a toy keyed hash, a 12-octet message, key "k." / hmac-sha256-128 ---- *)
 Definition exH (h : hashid) (k d : bytes) : bytes :=
